@@ -12,5 +12,6 @@ mkdir -p $tmp/verif
 for d in contracts props known_findings.txt bounded; do [ -e /verif/$d ] && ln -s /verif/$d $tmp/verif/$d; done
 /verif/bin/govc check $prop --tier $tier --repo $tmp/repo --verif $tmp/verif
 code=$?
+if [ $code -ne 0 ] && [ -n "$KEEP_FAIL" ]; then rm -rf /verif/work/lastfail; mkdir -p /verif/work/lastfail; cp -r $tmp/verif/replay /verif/work/lastfail/ 2>/dev/null; cp -r $tmp/verif/work /verif/work/lastfail/ 2>/dev/null; fi
 rm -rf $tmp
 exit $code
